@@ -544,10 +544,33 @@ func vfGenC17E2E(t *rapid.T) vfScenCase {
 		sc.Items = append(sc.Items, vfItem{K: vfItFrame, On: rapid.IntRange(0, 3).Draw(t, "padm") == 0})
 	}
 	// test-recording requests at arbitrary frames, also on frames that trigger a motion recording
+	// ... half of them exactly there: the items at which the model starts a motion recording
+	var triggers []int
+	{
+		itemOf := []int{}
+		for i, it := range sc.Items {
+			if it.K == vfItFrame {
+				itemOf = append(itemOf, i)
+			}
+		}
+		for _, rec := range vfScenModel(vfScenCase{Sock: *sc, WindowKind: c.WindowKind}).Motion {
+			if rec.TriggerID < len(itemOf) {
+				triggers = append(triggers, itemOf[rec.TriggerID])
+			}
+		}
+	}
 	nreq := rapid.IntRange(0, 2).Draw(t, "nreq")
 	pos := 0
 	for q := 0; q < nreq; q++ {
 		at := pos + rapid.IntRange(0, 20).Draw(t, "reqat")
+		if rapid.Bool().Draw(t, "ontrigger") {
+			for _, tr := range triggers {
+				if tr >= pos {
+					at = tr
+					break
+				}
+			}
+		}
 		for at < len(sc.Items) && sc.Items[at].K != vfItFrame {
 			at++
 		}
@@ -665,6 +688,22 @@ func vfRunC17E2E(c vfScenCase) *kit.Result {
 	r.Class(fmt.Sprintf("window_kind=%d", c.WindowKind))
 	if c.Throttle {
 		r.Class("throttle_on")
+	}
+	{
+		frameNo, n := map[int]int{}, 0
+		for i, it := range sc.Items {
+			if it.K == vfItFrame {
+				frameNo[i] = n
+				n++
+			}
+		}
+		for _, q := range c.TestAt {
+			for _, mr := range m.Motion {
+				if mr.TriggerID == frameNo[q] {
+					r.Class("test_request_on_trigger_frame")
+				}
+			}
+		}
 	}
 	if len(wantTest) > 0 {
 		r.Class("has_test_recording")
